@@ -159,9 +159,9 @@ CLAIMS = {
              "unchanged by permuting definitions, reversing selections / arguments / variable definitions, consistent renaming and re-spacing.",
         note=BND + "Trusted: vf/ref_validate.py (276 self-test cases incl. the specification's own examples)."),
     "C11": dict(
-        category="other", engine="rtc",
-        technique="run-time structural equality between a declarative reading of the SDL and the built schema, over orders and extension splits",
-        text="Bounded: describe(build_schema(doc)) == describe_sdl(doc) and closed(schema) for the base schema, 50+ edited variants and documents with "
+        category="other", engine="tracecheck+rtc",
+        technique="trace contract over every path of the definition collector (Engine P) + run-time structural equality between a declarative reading of the SDL and the built schema, over orders and extension splits",
+        text="All paths of _collect_definitions: a second definition of a type / directive name or a second schema definition is rejected with an SDL error, never overwritten, and nothing but SDL errors is raised there. Bounded: describe(build_schema(doc)) == describe_sdl(doc) and closed(schema) for the base schema, 50+ edited variants and documents with "
              "recursion / defaults / descriptions / deprecations / schema definitions, under definition permutations, random splits of members into "
              "extend blocks, ignore_extensions and additional_types; 23 labelled invalid documents raise only schema / SDL errors.",
         note=BND + "Known finding: defaults are coerced before extensions are merged."),
